@@ -126,8 +126,9 @@ def check(chk, repo, tier):
             Tracked.reads.add(k)
             return dict.__getitem__(self, k)
 
-    def fresh(scopes, flag, scope_kinds=()):
+    def fresh(scopes, flag, scope_kinds=(), online=False):
         ctx = it.instantiate(Context, [], {})
+        ctx.d["online"] = online
         for kind in scope_kinds:
             for lst, n_push in zip(LISTS, scope_vectors[kind]):
                 if lst != "inputs":
@@ -151,9 +152,14 @@ def check(chk, repo, tier):
                 for flag in (False, True):
                     scopes = [([f"in{d}_{i}" for i in range(ln)], c)
                               for d, (ln, c) in enumerate(zip(lens, curs))]
-                    for sk in _it.combinations_with_replacement(
-                            kinds, depth - 1):
-                        ctx = fresh(scopes, flag, sk)
+                    for sk, online in [
+                            (sk_, on_)
+                            for sk_ in _it.combinations_with_replacement(
+                                kinds, depth - 1)
+                            for on_ in (False, True)]:
+                        # the law holds in both modes: online only changes
+                        # where missing *top-level* input comes from
+                        ctx = fresh(scopes, flag, sk, online)
                         n_states += 1
                         it.steps = 0
                         try:
@@ -374,6 +380,30 @@ def check(chk, repo, tier):
                sample={"structure": label})
 
     input_context_threaded(chk, repo, gen)
+    # every run reads from its own scopes: the context of a run is built
+    # fresh, not derived from an object that outlives the run
+    main = repo.mod("main")
+    n_ctx = 0
+    for fn in main.functions.values():
+        for a in ast.walk(fn):
+            if isinstance(a, ast.Assign) and any(
+                    isinstance(t, ast.Name) and t.id == "ctx"
+                    for t in a.targets):
+                n_ctx += 1
+                v = a.value
+                fresh_ctx = isinstance(v, ast.Call) and (dotted(v.func) or ""
+                                                         ).split(".")[-1] == \
+                    "Context" and not v.args and not v.keywords
+                chk.ob("C11.run-starts-with-fresh-context",
+                       f"main.{fn.name}:ctx = {ast.unparse(v)[:40]}",
+                       fresh_ctx,
+                       f"the run's context is `{ast.unparse(v)[:60]}`, not a "
+                       "new Context(): input scopes and cursors (Context.copy "
+                       "shares the lists) survive from one run to the next in "
+                       "the same process", main.rel, a.lineno,
+                       witness="run `?` on inputs 1,2,3 twice: prints 1, "
+                               "then 2")
+    chk.floor("context constructions in main.py", n_ctx, 1)
 
     # ---- implicit reads happen while the call's own scope is still pushed --------------
     probes = [
